@@ -224,6 +224,8 @@ pub mod verif {
         pub static ALLOC_ARMED: AtomicU8 = AtomicU8::new(0);
         pub static ALLOC_EVENTS: AtomicU32 = AtomicU32::new(0);
         pub fn arm_alloc() { ALLOC_EVENTS.store(0, Ordering::Relaxed); ALLOC_ARMED.store(1, Ordering::Relaxed); }
+        /// selftest only: count allocations without tripping the assertion inside the stubs
+        pub fn arm_alloc_count_only() { ALLOC_EVENTS.store(0, Ordering::Relaxed); ALLOC_ARMED.store(2, Ordering::Relaxed); }
         pub fn disarm_alloc() { ALLOC_ARMED.store(0, Ordering::Relaxed); }
         pub fn alloc_events() -> u32 { ALLOC_EVENTS.load(Ordering::Relaxed) }
         #[inline]
@@ -235,6 +237,9 @@ pub mod verif {
         }
         #[cfg(all(kani, feature = "alloc"))]
         pub unsafe fn stub_alloc(layout: core::alloc::Layout) -> *mut u8 {
+            // asserted right here as well: an allocation is a definite failure even if the code that follows it
+            // (e.g. Vec growth loops) exceeds the unwinding bound of the harness
+            assert!(ALLOC_ARMED.load(Ordering::Relaxed) != 1, "C18 heap allocation (alloc) reached while a primitive is in use");
             note_alloc_event();
             alloc::alloc::alloc_zeroed(layout)
         }
@@ -244,6 +249,7 @@ pub mod verif {
         }
         #[cfg(all(kani, feature = "alloc"))]
         pub unsafe fn stub_realloc(_ptr: *mut u8, layout: core::alloc::Layout, new_size: usize) -> *mut u8 {
+            assert!(ALLOC_ARMED.load(Ordering::Relaxed) != 1, "C18 heap allocation (realloc) reached while a primitive is in use");
             note_alloc_event();
             alloc::alloc::alloc_zeroed(core::alloc::Layout::from_size_align_unchecked(new_size, layout.align()))
         }
